@@ -446,6 +446,22 @@ def gen_e2e(rng, cid, variant=None, types=None, maxit_max=25, r_max=3, prior='ze
     return line, meta
 
 
+def gen_e2e_vshape(rng, cid, directed=None, **kw):
+    """a whole call whose in-membership argument has ANY shape on entry (never sized, or left over from a call on another network): the
+    library sizes it itself when it needs it (directed) and ignores it otherwise"""
+    variant = (rng.chance(0.7) if directed is None else directed, rng.chance(0.5), rng.chance(0.4))
+    _line, m = gen_e2e(rng, cid, variant=variant, **kw)
+    N, K = m['N'], m['K']
+    vr, vc = rng.choice([s_ for s_ in [(0, 0), (0, 0), (2, 5), (N + 1, K), (N, K + 1), (1, 1), (K, N), (N * K, 1), (max(1, N - 1), K)] if s_ != (N, K)])
+    v0 = [rng.choice([0.0, 0.5 + rng.unit(), 3.0]) for _ in range(vr * vc)]
+    recs = m['recs']
+    line = e2e_case(cid, m['directed'], m['assort'], m['from_init'], m['ltype'], m['wtype'], m['r'], m['maxit'], m['nconv'], m['seed'],
+                    [s for s, _, _ in recs], [t for _, t, _ in recs], [w for _, _, ws in recs for w in ws], m['aff'], N, K, m['u0'], vr, vc, v0, [], [])
+    m['v0'] = v0
+    m['vshape'] = (vr, vc)
+    return line, m
+
+
 VARIANTS = [(d, a, f) for f in (False, True) for a in (False, True) for d in (False, True)]
 
 
